@@ -132,3 +132,26 @@ func localInPostBad(h *holder, b []int) error {
 func lenBits(j uint64) int {
 	return bits.Len64(j - 1)
 }
+
+// EXPECT-LITE pass
+func orderDeferredOK(s *dstore) error {
+	if err := s.cl.Flush(); err != nil {
+		return err
+	}
+	defer func() {
+		s.cl.Sync()
+	}()
+	s.frontier = 2
+	return nil
+}
+
+// EXPECT-LITE fail order:selftest.orderDeferredBad:cl_flushed_before_sync
+func orderDeferredBad(s *dstore) (err error) {
+	defer func() {
+		s.cl.Sync()
+	}()
+	if s.n > 3 {
+		return ErrBad
+	}
+	return s.cl.Flush()
+}
